@@ -143,3 +143,16 @@ Proof.
   exists (flat_map (fun fr => snd (fst fr)) tail). split; [symmetry; exact He|].
   cbn [pr_end pr_frames]. rewrite Hl. split; [reflexivity|]. now apply decode_frames_complete.
 Qed.
+
+(* C08: the same one-frame content in both modes *)
+Theorem both_modes_same_result (f : frame) (evs : list event) (grouped : bool) :
+  run_frames [f] = Valid evs -> small f -> f_rows f <> [] ->
+  let r1 := parse_stream Generic grouped false (write_single f) in
+  let r2 := parse_stream Generic grouped false (write_delimited [f]) in
+  flat_events r1 = evs /\ flat_events r2 = evs /\ pr_end r1 = PEnd /\ pr_end r2 = PEnd.
+Proof.
+  intros Hrun Hs Hne.
+  destruct (valid_bytes_decode_single f evs grouped Hrun Hs) as (A & B & _).
+  destruct (valid_bytes_decode_delimited [f] evs grouped Hrun (Forall_cons _ Hs (Forall_nil _)) (or_intror Hne)) as (C & D & _).
+  cbv zeta. auto.
+Qed.
